@@ -39,9 +39,9 @@ def add(run, tier):
     # ... and process_layouts, which resolves the markers pending between two text chunks (contracts/layouts.py): for every handler
     # table (free choice per rule tuple) the handler calls are a contiguous in-order cover of the buffer, each handler sees the true
     # neighbour texts and the text of the previous fragment of this run, and exactly the handlers' fragments come out (buffers of
-    # 0..3 markers; 4 in the thorough tier)
+    # 0..4 markers; 5 in the thorough tier; from four markers on a handler yields nothing or one fragment)
     import contracts.layouts as clay
-    verify_functions(run, clay.build(wm, sizes=(0, 1, 2, 3) if tier == 'quick' else (0, 1, 2, 3, 4)), {}, {}, tier=tier)
+    verify_functions(run, clay.build(wm, sizes=(0, 1, 2, 3, 4) if tier == 'quick' else (0, 1, 2, 3, 4, 5)), {}, {}, tier=tier)
 
 
 def rule_constants(run, rm, um):
